@@ -106,6 +106,8 @@ public:
 
   // scripted forces / custom colvars as closures
   std::function<int()> force_callback;
+  // called after every calc() of run() (observation hook for the properties)
+  std::function<void(long step)> after_step;
 
   // ---- driving ----
   int configure(std::string const &conf);                 // read_config_string
